@@ -1257,13 +1257,13 @@ class FileStorage(
             gc = self._pack_gc
 
         oldpath = self._file_name + ".old"
-        if os.path.exists(oldpath):
-            os.remove(oldpath)
-        if self.blob_dir and os.path.exists(self.blob_dir + ".old"):
-            remove_committed_dir(self.blob_dir + ".old")
-
         have_commit_lock = False
         try:
+            if os.path.exists(oldpath):
+                os.remove(oldpath)
+            if self.blob_dir and os.path.exists(self.blob_dir + ".old"):
+                remove_committed_dir(self.blob_dir + ".old")
+
             pack_result = None
             try:
                 pack_result = self.packer(self, referencesf, stop, gc)
@@ -1287,8 +1287,13 @@ class FileStorage(
                         self._file = open(self._file_name, 'r+b')
                         raise
 
+                    try:
+                        os.replace(self._file_name + '.pack', self._file_name)
+                    except Exception:
+                        self._file = open(self._file_name, 'r+b')
+                        raise
+
                     # OK, we're beyond the point of no return
-                    os.replace(self._file_name + '.pack', self._file_name)
                     self._file = open(self._file_name, 'r+b')
                     self._initIndex(index, self._tindex)
                     self._pos = opos
